@@ -13,7 +13,12 @@ every downstream call with a yield point inside; all schedules with at most `bou
 ones; every run with the unwired subscriber is compared step-for-step with the Coq transition system under the
 same schedule; runs with a wired subscriber (terminal notification disposes the sources) are judged by the
 oracle only.  Oracle: overlapping downstream calls (at the instant of the call and on the log), grammar of what
-the subscriber's callbacks saw."""
+the subscriber's callbacks saw.
+
+Oracle-only scenario kinds (combdrv.ORACLE_ONLY, no transition system): merge_static = reactivex.merge(a, b, ..),
+merge_with = a.pipe(ops.merge(b, ..)) -- the subscription is made by one more controlled thread, so the outer
+from_iterable runs on it while the sources it already subscribed emit from their own threads -- and amb3 =
+reactivex.amb(a, b, c)."""
 import json
 import os
 import sys
@@ -231,6 +236,13 @@ FIXED = [
     {"op": "merge_max", "progs": [[N, N, C], [N, C], [N, E]], "params": {"max": 2}},
     {"op": "flat_map", "progs": [[N, C], [N, C]]},
     {"op": "flat_map", "progs": [[N, N, E], [N, N], [N, C]]},
+    {"op": "merge_static", "progs": [[N, C], [N, E]]},
+    {"op": "merge_static", "progs": [[N, N, C], [N, C]]},
+    {"op": "merge_static", "progs": [[N, C], [N, C], [N, E]]},
+    {"op": "merge_with", "progs": [[N, C], [N, N]]},
+    {"op": "merge_with", "progs": [[N, E], [N, C]]},
+    {"op": "amb3", "progs": [[N, C], [N, E], [N, N]]},
+    {"op": "amb3", "progs": [[E], [N, C], [C]]},
     {"op": "window_toc", "progs": [[N, N, N, C], []], "timers": 1, "params": {"span": 1, "count": 2, "ticks": 2}},
     {"op": "window_toc", "progs": [[N, E], []], "timers": 1, "params": {"span": 1, "count": 1, "ticks": 2}},
     {"op": "window_time", "progs": [[N, N, C], []], "timers": 1, "params": {"span": 1, "ticks": 2}},
@@ -265,7 +277,7 @@ def gen_scenarios(tier, rng):
     n = 4 if tier == "quick" else 40
     for _ in range(n):
         op = rng.choice(["zip", "combine_latest", "with_latest_from", "amb", "merge_all", "merge_max", "flat_map",
-                         "window_toc", "window_time"])
+                         "window_toc", "window_time", "merge_static", "merge_with", "amb3"])
         def prog(maxlen=3):
             p = [N] * rng.randrange(0, maxlen)
             t = rng.choice([C, E, None, C])
@@ -281,6 +293,8 @@ def gen_scenarios(tier, rng):
                 sc["params"]["shift"] = rng.choice([1, 2])
         elif op == "amb":
             sc = {"op": op, "progs": [prog(), prog()]}
+        elif op == "amb3":
+            sc = {"op": op, "progs": [prog(), prog(), prog()]}
         elif op in ("merge_all", "merge_max", "flat_map"):
             k = rng.choice([1, 2])
             sc = {"op": op, "progs": [[N] * k + ([rng.choice([C, E])] if rng.random() < 0.8 else [])] +
@@ -323,7 +337,10 @@ def run(chk):
                 def once(chooser, sc=sc, wired=wired):
                     c, w = D.run_once(sc, chooser, tg, wired=wired)
                     return c.trace, (c, w)
-                results = list(k3.explore(once, bound, limit=(wlimit if wired else limit)))
+                lim = wlimit if wired else limit
+                if sc["op"] in D.ORACLE_ONLY and tier == "quick":
+                    lim = 50 if wired else 150
+                results = list(k3.explore(once, bound, limit=lim))
                 for _ in range(nrandom if not wired else nrandom // 2):
                     tr, cw = once(k3.random_chooser(chk.rng))
                     results.append(([x for x, _ in tr], cw))
@@ -341,7 +358,7 @@ def run(chk):
                         chk.violation(f"C43|{sc['op']}|{tag}",
                                       {"mode": "concurrent", "subscriber": mode, "scenario": sc, "schedule": sched,
                                        "implementation_log": log, "oracle": tag, "what": msg}, size=len(sched))
-                    if not wired:
+                    if not wired and sc["op"] not in D.ORACLE_ONLY:
                         cases.append((sc, sched, log))
                 stats["ops"][sc["op"]] = stats["ops"].get(sc["op"], 0) + len(results)
                 stats["threads"][str(len(sc["progs"]))] = stats["threads"].get(str(len(sc["progs"])), 0) + len(results)
@@ -394,7 +411,11 @@ def run(chk):
         f"logs enter/exit of every call the operator makes downstream (yield point inside).  Per scenario: schedules with at "
         f"most {bound} preemptions (stateless enumeration, capped at {limit} per scenario with an unwired subscriber and "
         f"{wlimit} with a wired one) + {nrandom} seeded random schedules.  Unwired runs are compared step-for-step with the "
-        "Coq transition system under the same schedule; all runs are judged by the direct oracle.  non-trivial = a "
+        "Coq transition system under the same schedule; all runs are judged by the direct oracle.  ORACLE-ONLY scenario "
+        "kinds (no transition system; capped at 150 / 50 schedules per scenario in the quick tier): merge_static = "
+        "reactivex.merge(a, b, ..) and merge_with = a.pipe(ops.merge(b, ..)) with the SUBSCRIPTION made by one more "
+        "controlled thread (the outer from_iterable runs on it while the sources already subscribed emit from their "
+        "own threads), amb3 = reactivex.amb(a, b, c) (nested amb over never()).  non-trivial = a "
         "schedule with at least one preemption, distinct (scenario, subscriber, schedule).")
     chk.cov["input_distribution"] = {
         "scenarios": len(scs), "runs_by_operator": stats["ops"], "runs_by_thread_count": stats["threads"],
@@ -427,6 +448,9 @@ def run(chk):
             "theorems and correspondence use a subscriber that does not dispose the sources on a terminal notification "
             "(superset of the behaviours with disposal); wired subscribers are exercised against the oracle only",
             "payloads are abstracted in the models (value semantics of these operators: C10-C13)",
+            "the static forms reactivex.merge(..) / ops.merge(b) / reactivex.amb(a, b, c) have no transition system of "
+            "their own (they are compositions of from_iterable / never with the modelled merge_all / amb): their runs are "
+            "judged by the oracle only",
         ])
 
 
@@ -445,6 +469,8 @@ def replay(chk, path):
         print("schedule", [x for x, _ in c.trace])
         print("implementation log", log)
         print("oracle", bad or "ok")
+        if bad:
+            print(f"VIOLATION property=C43 replay={path}")
         return 1 if bad else 0
     print(json.dumps(d, indent=1)[:4000])
     return 1
